@@ -30,3 +30,27 @@ Example C04_example :
   r_status r = 0%Z /\ length (r_report r) = 1%nat /\ r_calls r = [] /\ fs_eqb (r_final r) fs_dangling = true /\
   length (r_calls (run real_cfg plan_dangling [] fs_dangling)) = 1%nat.
 Proof. vm_compute. repeat split. Qed.
+
+(* ---- the whole program (Whole/Main.v [tempren_main]; proofs: Whole/PipelineProps.v) ---- *)
+From Tempren Require Import Pipe.FrontCompile Whole.Library Whole.Render Whole.Gather Whole.Main Whole.PipelineProps Whole.Examples.
+
+(* For EVERY template text (compiling or not), registry, options with --dry-run (every mode, strategy, -r, -ih, sort,
+   answers, fault index, listing order, working directory), input paths and tree: tempren issues no system call, no
+   intermediate state exists, the final tree is the initial one - whatever is gathered, rendered and reported, and
+   whatever the exit status. *)
+Theorem C04_whole_dry_run_touches_nothing : forall upper lower R o text dirs s,
+  o_dry o = true ->
+  let r := tempren_main upper lower R o text dirs s in
+  r_calls r = [] /\ r_states r = [] /\ r_final r = s.
+Proof. exact whole_dry_run_touches_nothing. Qed.
+Print Assumptions C04_whole_dry_run_touches_nothing.
+
+(* the template "x" on the example tree, -r, sorted: the dry run reports two renames and stops at the conflict
+   (status 1) without a call; the real run issues two calls *)
+Example C04_whole_example :
+  let d := ex_main (set_dry (ex_options MName true true) true) t_x ex_dirs ex_tree in
+  let r := ex_main (ex_options MName true true) t_x ex_dirs ex_tree in
+  o_dry (set_dry (ex_options MName true true) true) = true /\
+  r_status d = 1%Z /\ length (r_report d) = 2%nat /\ r_calls d = [] /\ r_states d = [] /\ r_final d = ex_tree /\
+  length (r_calls r) = 2%nat /\ fs_eqb (r_final r) ex_tree = false.
+Proof. vm_compute. repeat split; reflexivity. Qed.
